@@ -202,6 +202,7 @@ def _shard(sh: Dict[str, Any]) -> Dict[str, Any]:
     from vlib.bc import stubs, ai312
     from harness.c01 import analyse_program
 
+    stubs.install_guard()
     model = stubs.InspectModel()
     _lowlevel._check_trickery_available()
     saved = _lowlevel.inspect_frame
